@@ -1105,6 +1105,169 @@ theorem anonymous_caller_gets_zero_suffix (s : State) (id : Bytes) (sup : Suppli
   rw [hpay, hb]
   simp [leftPad32]
 
+/-- a left-padded address is 32 zero bytes only if the address itself consists of zero bytes -/
+theorem leftPad32_zero (a : Bytes) (h : leftPad32 a = List.replicate 32 0) : a = List.replicate a.length 0 := by
+  unfold leftPad32 at h
+  exact (List.append_eq_replicate_iff.mp h).2.2
+
+/-- **requester_address** over histories, for everything a transaction or a contract can cause.  Cut ANY history
+anywhere; let the next event be an operation at MESSAGE level (`Op.messageLevel`: `MsgExecuteJob` by an account,
+or one of the two bindings called by wasmd for a contract — requester address `a` non-empty, at most 32 bytes)
+that reports `enqueued call`.  Then the message names `a` as `SenderAddress` (and, for a contract, as
+`ContractAddress` too; for an account there is no contract address), its payload is the chosen payload followed by
+`32 − |a|` zero bytes and then `a`, and those 32 bytes are all zero only if `a` itself is all zero bytes.  In
+particular the "no requester" suffix of `anonymous_caller_gets_zero_suffix` never comes from a message.
+
+ASSUMPTION (SDK / wasmd), carried by `Op.messageLevel`: the signer's account address and the address wasmd
+passes as `contractAddr` are non-empty and at most 32 bytes long.  The op alphabet admits more (an `execWasm`
+with an empty or over-long address): `exec_wasm_outside_message_level`. -/
+theorem message_level_request_names_requester (s : State) (pre : List Ev) (o : Op) (call : Call)
+    (h : (stepEv (run s pre) (.op o)).2 = .enqueued call) (hm : o.messageLevel) :
+    ∃ a id sup caller j, a ≠ [] ∧ a.length ≤ 32 ∧ o.request = some (id, sup, caller) ∧
+      (caller = Caller.account a ∨ caller = Caller.wasm a) ∧
+      findJob (run s pre).jobs id = some j ∧ call.fromJob j ∧
+      call.sender = some a ∧ call.contractAddr = caller.contract ∧
+      call.payload = chosen j sup ++ (List.replicate (32 - a.length) 0 ++ a) ∧
+      (List.replicate (32 - a.length) (0 : UInt8) ++ a).length = 32 ∧
+      (List.replicate (32 - a.length) (0 : UInt8) ++ a = List.replicate 32 0 → a = List.replicate a.length 0) := by
+  obtain ⟨o', id, sup, caller, he, hreq, hex, _⟩ := stepEv_enqueued h
+  cases he
+  obtain ⟨j, hj, hfrom, hs, hc, hpay, _, _, _⟩ := exec_fromJob _ id sup caller call hex
+  have key : ∀ a : Bytes, sdkAddr a → (caller = Caller.account a ∨ caller = Caller.wasm a) →
+      ∃ a id' sup' caller' j, a ≠ [] ∧ a.length ≤ 32 ∧ some (id, sup, caller) = some (id', sup', caller') ∧
+      (caller' = Caller.account a ∨ caller' = Caller.wasm a) ∧
+      findJob (run s pre).jobs id' = some j ∧ call.fromJob j ∧
+      call.sender = some a ∧ call.contractAddr = caller'.contract ∧
+      call.payload = chosen j sup' ++ (List.replicate (32 - a.length) 0 ++ a) ∧
+      (List.replicate (32 - a.length) (0 : UInt8) ++ a).length = 32 ∧
+      (List.replicate (32 - a.length) (0 : UInt8) ++ a = List.replicate 32 0 → a = List.replicate a.length 0) := by
+    intro a ha hca
+    have hb : caller.bytes = a ∧ caller.sender = some a := by
+      rcases hca with rfl | rfl <;> exact ⟨rfl, rfl⟩
+    refine ⟨a, id, sup, caller, j, ha.1, ha.2, rfl, hca, hj, hfrom, by rw [hs, hb.2], hc, ?_, ?_, ?_⟩
+    · rw [hpay, hb.1]; rfl
+    · have := leftPad32_length a ha.2
+      simpa [leftPad32] using this
+    · intro hz
+      exact leftPad32_zero a hz
+  cases o with
+  | exec id0 sup0 caller0 =>
+    simp only [Op.request, Option.some.injEq, Prod.mk.injEq] at hreq
+    obtain ⟨rfl, rfl, rfl⟩ := hreq
+    obtain ⟨a, ha, hca⟩ := hm
+    exact key a ha (Or.inl hca)
+  | execWasm addr id0 b =>
+    simp only [Op.request, Option.some.injEq, Prod.mk.injEq] at hreq
+    obtain ⟨rfl, rfl, rfl⟩ := hreq
+    exact key addr hm (Or.inr rfl)
+  | execLegacy addr id0 b =>
+    simp only [Op.request, Option.some.injEq, Prod.mk.injEq] at hreq
+    obtain ⟨rfl, rfl, rfl⟩ := hreq
+    exact key addr hm (Or.inr rfl)
+  | create i => simp [Op.request] at hreq
+  | relay _ _ => simp [Op.request] at hreq
+  | bump _ _ => simp [Op.request] at hreq
+  | publish _ => simp [Op.request] at hreq
+
+/-- **requester_address**, the wasm bindings outside message level.  The model's `execWasm` / `execLegacy`
+take any byte string as contract address.  With an address longer than 32 bytes the request is REJECTED without
+effect ("Can not zero pad byte array"); with the EMPTY address it can succeed and then carries 32 zero bytes —
+the same corner as `anonymous_caller_gets_zero_suffix`.  wasmd never passes either (contract addresses are 32
+bytes): the restriction is `Op.messageLevel`, an assumption on the environment, not something the keeper checks. -/
+theorem exec_wasm_outside_message_level (s : State) (addr id b : Bytes) :
+    (addr.length > 32 →
+      stepEv s (.op (.execWasm addr id b)) = (s, .rejected) ∧ stepEv s (.op (.execLegacy addr id b)) = (s, .rejected)) ∧
+    (addr = [] → ∀ call, (stepEv s (.op (.execWasm addr id b))).2 = .enqueued call →
+      ∃ j, findJob s.jobs id = some j ∧ call.payload = chosen j (.bytes b) ++ List.replicate 32 0) := by
+  constructor
+  · intro hlen
+    have hnone : (exec s id (.bytes b) (Caller.wasm addr)).2 = none := by
+      rw [exec_fails_iff]
+      cases hj : findJob s.jobs id with
+      | none => exact Or.inl rfl
+      | some j => exact Or.inr ⟨j, rfl, Or.inr (Or.inr (Or.inr (Or.inl hlen)))⟩
+    have hst := exec_none s id (.bytes b) (Caller.wasm addr) hnone
+    constructor
+    · simp only [stepEv, txStep]
+      split
+      · rfl
+      · rw [hnone, hst]; rfl
+    · simp only [stepEv, txStep]
+      split
+      · rfl
+      · rw [hnone, hst]; rfl
+  · intro ha call h
+    subst ha
+    obtain ⟨o', id', sup, caller, he, hreq, hex, _⟩ := stepEv_enqueued h
+    cases he
+    simp only [Op.request, Option.some.injEq, Prod.mk.injEq] at hreq
+    obtain ⟨rfl, rfl, rfl⟩ := hreq
+    exact anonymous_caller_gets_zero_suffix s id _ _ call hex (Or.inr rfl)
+
+/-- **requester_address**, what the 32 bytes do NOT tell.  Left-padding is idempotent, so the payload suffix
+of a request by a requester `a` and of a request by the 32-byte address `0…0‖a` (`leftPad32 a`) are the same:
+`inject p a = inject p (leftPad32 a)`.  The realistic instance: a 20-byte ACCOUNT `a` and the 32-byte CONTRACT
+address `0¹²‖a`.  Two successful requests for the same job with the same supplied payload, one by the account
+and one by that contract, enqueue messages with identical chain, contract, ABI and payload; they differ only in
+the `SenderAddress` / `ContractAddress` fields next to the payload.  The target contract, which sees the
+payload only, cannot tell the two requesters apart. -/
+theorem account_and_padded_contract_same_payload (s : State) (id : Bytes) (sup : Supplied) (a : Bytes)
+    (c1 c2 : Call) (hlen : a.length = 20)
+    (h1 : (exec s id sup (Caller.account a)).2 = some c1)
+    (h2 : (exec s id sup (Caller.wasm (List.replicate 12 0 ++ a))).2 = some c2) :
+    (∀ p, inject p a = inject p (List.replicate 12 0 ++ a)) ∧
+    c1.payload = c2.payload ∧ c1.chain = c2.chain ∧ c1.contract = c2.contract ∧ c1.abi = c2.abi ∧
+    c1.mev = c2.mev ∧ c1.sender = some a ∧ c2.sender = some (List.replicate 12 0 ++ a) ∧
+    c1.contractAddr = none ∧ c2.contractAddr = some (List.replicate 12 0 ++ a) ∧ c1 ≠ c2 := by
+  have hpad : leftPad32 (List.replicate 12 0 ++ a) = leftPad32 a := by
+    simp [leftPad32, hlen]
+  obtain ⟨j1, hj1, hf1, hs1, hc1, hp1, _⟩ := exec_fromJob s id sup _ c1 h1
+  obtain ⟨j2, hj2, hf2, hs2, hc2, hp2, _⟩ := exec_fromJob s id sup _ c2 h2
+  rw [hj1] at hj2
+  simp only [Option.some.injEq] at hj2
+  subst hj2
+  have hb1 : (Caller.account a).bytes = a := rfl
+  have hb2 : (Caller.wasm (List.replicate 12 0 ++ a)).bytes = List.replicate 12 0 ++ a := rfl
+  refine ⟨?_, ?_, by rw [hf1.1, hf2.1], by rw [hf1.2.1, hf2.2.1], by rw [hf1.2.2.1, hf2.2.2.1],
+    by rw [hf1.2.2.2.1, hf2.2.2.2.1], hs1, hs2, hc1, hc2, ?_⟩
+  · intro p
+    unfold inject
+    have l1 : ¬ a.length > 32 := by omega
+    have l2 : ¬ (List.replicate 12 (0 : UInt8) ++ a).length > 32 := by simp; omega
+    rw [if_neg l1, if_neg l2, hpad]
+  · rw [hp1, hp2, hb1, hb2, hpad]
+  · intro heq
+    have : c1.contractAddr = c2.contractAddr := by rw [heq]
+    rw [hc1, hc2] at this
+    cases this
+
+/-- **pending_call_provenance** (queue level, the chosen payload included).  Every contract call pending on
+chain `x` after a history was pending before it, or it was put there by an execution-request operation `o` of
+the history: `o` asked for job id `id` with supplied payload `sup` for requester `caller`, reported exactly this
+call, the job `j` stored under `id` at that moment is still stored unchanged at the end, the call is on `x` =
+`j`'s chain for `j`'s contract / ABI / MEV flag, and its payload is `chosen j sup` — `j`'s stored payload for a
+fixed job (which was handed nothing), THE BYTES THAT OPERATION SUPPLIED for a modifiable job handed bytes —
+followed by the left-padded requester of that operation. -/
+theorem pending_call_provenance (s : State) (evs : List Ev) (x : String) (c : Call)
+    (h : c ∈ callsOn (run s evs) x) :
+    c ∈ callsOn s x ∨
+    ∃ pre o post id sup caller j, evs = pre ++ Ev.op o :: post ∧ o.request = some (id, sup, caller) ∧
+      (stepEv (run s pre) (.op o)).2 = .enqueued c ∧ c.chain = x ∧
+      findJob (run s pre).jobs id = some j ∧ findJob (run s evs).jobs id = some j ∧ c.fromJob j ∧
+      c.sender = caller.sender ∧ c.contractAddr = caller.contract ∧
+      c.payload = chosen j sup ++ leftPad32 caller.bytes ∧ (leftPad32 caller.bytes).length = 32 ∧
+      cannotModify j sup = false ∧ (j.modifiable = true → sup ≠ .empty ∧ sup ≠ .bad) := by
+  rw [calls_track_results, List.mem_append] at h
+  rcases h with h | h
+  · exact Or.inl h
+  · right
+    obtain ⟨hmem, hx⟩ := mem_enqueuedOn.mp h
+    obtain ⟨pre, e, post, rfl, hr⟩ := mem_results.mp hmem
+    obtain ⟨o, id, sup, caller, j, he, hreq, hj, hj', hfrom, hs, hc, hpay, hlen, hcm, hmod, _⟩ :=
+      every_enqueued_call_is_the_jobs s pre e post c hr
+    subst he
+    exact ⟨pre, o, post, id, sup, caller, j, rfl, hreq, hr, hx, hj, hj', hfrom, hs, hc, hpay, hlen, hcm, hmod⟩
+
 /-! ### "(possibly accompanied by a validator-set update for that chain)" -/
 
 /-- **sendValset_spec**: what `SendValsetMsgForChain` does to a queue, exactly.  If no update for the current
@@ -1256,12 +1419,59 @@ example : ((run exInit exHistory).chain "test-chain").map (fun c => c.queue.head
   decide
 example : (run exInit exHistory).jobs.map (·.owner) = [[7], [7]] := by decide
 example : exAcct.entryPoint := ⟨List.replicate 20 0xaa, by decide, by decide, Or.inl rfl⟩
-/-- the stale branch and the non-stale branch of `accompanying_valset_characterised` are both reachable -/
+/-- the STALE branch of `accompanying_valset_characterised` is reachable: at `exInit` snapshot 3 is published on
+the chain while 4 is current; the first execution (event 4 of `exHistory`) replaces the queued `UpdateValset 3`
+by `UpdateValset 4` and appends the call (queue length 1 → 2), the next successful one finds the current update
+queued and only appends (2 → 3; the chain is still stale, `sendValset` is a no-op on the valset part) -/
 example : ((∃ k, exChain.onChain = some k ∧ k ≠ exInit.snap) ∧ exChain.active = true) :=
   ⟨⟨3, rfl, by decide⟩, rfl⟩
 example : (((run exInit (exHistory.take 4)).chain "test-chain").map (·.onChain)) = some (some 3) ∧
-    (((run exInit (exHistory.take 4)).chain "test-chain").map (·.queue.length)) = some 2 ∧
+    (((run exInit (exHistory.take 4)).chain "test-chain").map (·.queue)) = some [.valset 4, .call
+      { chain := "test-chain", contract := [0xc0], abi := [0xab],
+        payload := [1, 2] ++ List.replicate 12 0 ++ List.replicate 20 0xaa,
+        sender := some (List.replicate 20 0xaa), contractAddr := none, mev := false }] ∧
     (((run exInit (exHistory.take 6)).chain "test-chain").map (·.queue.length)) = some 3 := by decide
+
+/-- the NON-STALE branch is reachable too: after `publish` the current snapshot 4 is the one published on the
+chain; the execution leaves the old `UpdateValset 3` where it was and appends exactly the call -/
+def exFresh : State := run exInit [.op (.create exFixed), .op (.publish "test-chain")]
+example : (exFresh.chain "test-chain").map (fun c => (c.onChain, c.queue)) = some (some 4, [.valset 3]) ∧
+    ¬ ((∃ k, (exFresh.chain "test-chain").map (·.onChain) = some (some k) ∧ k ≠ exFresh.snap)) := by
+  refine ⟨by decide, ?_⟩
+  rintro ⟨k, hk, hne⟩
+  have h4 : (exFresh.chain "test-chain").map (·.onChain) = some (some 4) := by decide
+  rw [h4] at hk
+  simp only [Option.some.injEq] at hk
+  exact hne hk.symm
+example : ((stepEv exFresh (.op (.exec [102] .absent exAcct))).1.chain "test-chain").map (fun c => c.queue.map QMsg.isCall) =
+    some [false, true] ∧
+    ((stepEv exFresh (.op (.exec [102] .absent exAcct))).1.chain "test-chain").map (fun c => c.queue.head?) =
+    some (some (.valset 3)) := by decide
+/-- … and so is the "never published" case (`onChain = none`): no valset update accompanies the call -/
+example :
+    let s0 := State.init ["test-chain"]
+      ⟨fun n => if n = "test-chain" then some { exChain with onChain := none, queue := [] } else none⟩ 4
+    ((run s0 [.op (.create exFixed), .op (.exec [102] .absent exAcct)]).chain "test-chain").map
+      (fun c => c.queue.map QMsg.isCall) = some [true] := by decide
+
+/-- `message_level_request_names_requester`: its hypotheses are met in `exHistory` (events 4 and 7), and the
+32-byte contract / 20-byte account collision of `account_and_padded_contract_same_payload` through `run` -/
+example : (Op.exec [102] .absent exAcct).messageLevel ∧ (Op.execWasm (List.replicate 32 0xcc) [109] [6]).messageLevel :=
+  ⟨⟨List.replicate 20 0xaa, ⟨by decide, by decide⟩, rfl⟩, ⟨by decide, by decide⟩⟩
+example :
+    let s1 := run exInit [.op (.create exMod)]
+    let acct : Bytes := List.replicate 20 0xaa
+    ((exec s1 [109] (.bytes [5]) (Caller.account acct)).2.map (·.payload)) =
+      ((exec s1 [109] (.bytes [5]) (Caller.wasm (List.replicate 12 0 ++ acct))).2.map (·.payload)) ∧
+    ((exec s1 [109] (.bytes [5]) (Caller.account acct)).2.map (·.payload)) =
+      some ([5] ++ List.replicate 12 0 ++ acct) ∧
+    (exec s1 [109] (.bytes [5]) (Caller.account acct)).2 ≠
+      (exec s1 [109] (.bytes [5]) (Caller.wasm (List.replicate 12 0 ++ acct))).2 := by decide
+/-- outside message level: a binding call with the empty contract address reaches the 32-zero-byte suffix from
+a chain start (`exec_wasm_outside_message_level`) -/
+example : ((stepEv (run exInit [.op (.create exMod)]) (.op (.execWasm [] [109] [6]))).2) =
+    .enqueued { chain := "test-chain", contract := [0xc0], abi := [0xab], payload := [6] ++ List.replicate 32 0,
+                sender := some [], contractAddr := some [], mev := false } := by decide
 
 /-- **requester_address**, the keeper-level corner is reachable: from a chain start, after creating the fixed job,
 `Keeper.ExecuteJob` with `senderAddress = nil`, `contractAddr = nil` (and likewise with an empty non-nil sender)
